@@ -340,6 +340,7 @@ def showPart : Option Token.Partitioner → String
 /-- ops (answer is compared with the implementation's answer by the check driver):
   murmur <hex>            → signed decimal int64 token
   random <hex16 digest>   → decimal token
+  randomk <hex key>       → decimal token of the key (MD5 computed by the model: Model/MD5.lean)
   ordlt <hex> <hex>       → true|false
   parsem <string>         → int64 (murmur3 ParseString().String()) of a VALID token string; parsemx: any string
   rkey <hex> <hex> ...    → hex routing key of the encoded components
@@ -360,6 +361,9 @@ def stepU (ws : List String) : String :=
       | none => "bad-op"
   | ["random", h, _] => match parseHex h with
       | some bs => if bs.length = 16 then toString (Token.randomToken bs) else "bad-op"
+      | none => "bad-op"
+  | ["randomk", h] => match parseHex h with
+      | some bs => toString (Token.randomTokenOfKey bs)
       | none => "bad-op"
   | ["ordlt", a, b] => match parseHex a, parseHex b with
       | some x, some y => toString (Token.lexLt x y)
